@@ -268,3 +268,54 @@ func VerifC10LongestAlways() {
 		verifAssert(p.getField(2).s == "2", "FS regex is not leftmost-longest")
 	}
 }
+
+// sub/gsub with a regex that also matches the empty string (X*): every position where no X starts yields one empty
+// match, except directly after a run of X that was just replaced
+func verifRefGsubStar(in, repl string, global bool) (string, int) {
+	out, n := "", 0
+	lastEnd := -1
+	done := false
+	for i := 0; i <= len(in); {
+		j := i
+		for j < len(in) && in[j] == 'X' {
+			j++
+		}
+		if j > i {
+			if !done {
+				out += verifExpand(repl, in[i:j])
+				n++
+				done = !global
+			} else {
+				out += in[i:j]
+			}
+			lastEnd = j
+			i = j
+			continue
+		}
+		if i != lastEnd && !done {
+			out += verifExpand(repl, "")
+			n++
+			done = !global
+		}
+		if i < len(in) {
+			out += string([]byte{in[i]})
+		}
+		i++
+	}
+	return out, n
+}
+
+func VerifC10SubEmptyMatch() {
+	in := verifSubject(verifBound(2, 3))
+	for i := 0; i < len(in); i++ {
+		verifAssume(in[i] < 0x80)
+	}
+	repl := []string{"-", "&", "[&]", ""}[verifIntRange(0, 3)]
+	global := verifIntRange(0, 1) == 1
+	p := verifBuiltinInterp(false)
+	out, n, err := p.sub("X*", repl, in, global)
+	verifAssert(err == nil, "sub/gsub failed")
+	wantOut, wantN := verifRefGsubStar(in, repl, global)
+	verifReach("compared")
+	verifAssert(n == wantN && out == wantOut, "sub/gsub with a regex that matches the empty string: result or count differ from replacing every match (one empty match at every position where no X starts, also in an empty subject, but not directly after a replaced run)")
+}
